@@ -9,7 +9,7 @@ listings, utility and adapter queries, subscriptions and the probe are compared 
 Oracle: the statement's bookkeeping (four flat listings) kept by the harness itself."""
 from .. import core, runner
 
-THEOREMS = ["ZI.Components.C16_unregisterUtility", "ZI.Components.C16_registerUtility_events", "ZI.Components.C16_adapters", "ZI.Components.C16_subscriptions",
+THEOREMS = ["ZI.Components.registerUtility_split", "ZI.Components.slot_free_of_unregistered", "ZI.Components.C16_unregisterUtility", "ZI.Components.C16_registerUtility_events", "ZI.Components.C16_adapters", "ZI.Components.C16_subscriptions",
             "ZI.Components.cacheUnregister_listing", "ZI.Components.C16_pinned_violates",
             "ZI.Components.reload_listings", "ZI.Components.populateCache_counts", "ZI.Components.reload_counts",
             # over ALL histories of the eight methods, queries, re-loads and re-initialisations (ZI/Props/C16Hist.lean)
